@@ -199,8 +199,12 @@ def main_check(prop, tier, seed, replay=None):
         if os.environ.get('TCV_DEBUG'):
             for i in mism[:int(os.environ['TCV_DEBUG'])]:
                 print('MISMATCH', suite.name, json.dumps(cases[i], default=str)[:1500])
-                print('   impl :', json.dumps(obs[i], default=str)[:1500])
-                print('   model:', coqrun.eval_model(suite, pairs[i][0])[-1500:])
+                if not hasattr(suite, 'explain'):
+                    print('   impl :', json.dumps(obs[i], default=str)[:1500])
+                if hasattr(suite, 'explain'):
+                    print('   explain:', json.dumps(suite.explain(cases[i], obs[i]), default=str)[:4000])
+                else:
+                    print('   model:', coqrun.eval_model(suite, pairs[i][0])[-1500:])
         for e in errors:
             broken.append(f'correspondence {suite.name}: Coq could not evaluate a shard: {e[-300:]}')
     for v in prop.extra_checks(dict(tier=tier, seed=seed, rng=rng)):
